@@ -184,6 +184,9 @@ def skeletons2():
     yield "a if b else c if d else e", ("if-if",)
     yield "f(a if b else c, d)", ("call-if",)
     yield "f(a, k=b if c else d, l=e)", ("callkw-if",)
+    yield "f(k=a if b else c)", ("callkw-if-last",)
+    yield "f(a, b if c else d)", ("call-if-last",)
+    yield "f(a or b, k=c or d)", ("call-or",)
     yield "(a if b else c, d)", ("tuple-if",)
     yield "a < b < c", ("chain",)
     yield "a[b if c else d]", ("index-if",)
@@ -652,3 +655,234 @@ PROP = Prop(
                   "tokenizer is the reference for the token strings of the shared syntax"],
     design_ref="DESIGN.md §4 C07",
 )
+
+
+# {{{ the parser TABLE regenerated from the source (extract/parser.py, PV/Model/ParserTable.lean)
+
+def extract_parser_table(ctx):
+    from extract.parser import extract_parser
+    extract_parser(ctx)
+
+
+TP_NAMES = ["a", "b", "c", "x1", "f", "g", "v"]
+TP_NOISE = [")", "(", ",", "]", "[", ":", "=", "else", "if", "b", "1", ".", "*", "not", "-"]
+
+
+def tp_string(rng, depth):
+    """expressions of the WHOLE syntax of the parser (calls with keyword arguments, subscripts,
+    slices, look-ups, tuples, lists, wildcards, conditionals, every operator)"""
+    def atom():
+        k = rng.random()
+        if k < 0.5:
+            return rng.choice(TP_NAMES)
+        if k < 0.7:
+            return str(rng.randint(0, 12))
+        if k < 0.8:
+            return rng.choice(["1.5", "2e3", "True", "False", ".5"])
+        if k < 0.9:
+            return rng.choice(["()", "[]", "(a,)", "[a]", "(a, b)", "[a, b,]", "(a, b,)", "*"])
+        return rng.choice(["if", "f()", "f(a,)", "v[:]", "v[::]", "v[a:]", "v[:a]", "v[a:b:c]"])
+
+    def args(n):
+        parts = [gen(n) for _ in range(rng.randint(0, 2))]
+        for _ in range(rng.randint(0, 2)):
+            parts.append(rng.choice(["k", "l", "k"]) + "=" + gen(n))
+        if rng.random() < 0.15:
+            rng.shuffle(parts)
+        t = ", ".join(parts)
+        if parts and rng.random() < 0.15:
+            t += ","
+        return t
+
+    def gen(n):
+        if n <= 0:
+            return atom()
+        k = rng.random()
+        if k < 0.12:
+            return rng.choice(PRE) + gen(n - 1)
+        if k < 0.22:
+            return f"{gen(n - 1)} if {gen(n - 1)} else {gen(n - 1)}"
+        if k < 0.32:
+            return f"{gen(n - 1)}({args(n - 1)})"
+        if k < 0.40:
+            return f"{gen(n - 1)}[{gen(n - 1)}]"
+        if k < 0.47:
+            parts = [rng.choice(["", gen(n - 1)]) for _ in range(rng.randint(2, 3))]
+            return f"{gen(n - 1)}[{':'.join(parts)}]"
+        if k < 0.53:
+            return f"{gen(n - 1)}.{rng.choice(TP_NAMES)}"
+        if k < 0.60:
+            return "(" + ", ".join(gen(n - 1) for _ in range(rng.randint(1, 3))) + rng.choice(["", ","]) + ")"
+        if k < 0.64:
+            return "[" + ", ".join(gen(n - 1) for _ in range(rng.randint(1, 3))) + "]"
+        if k < 0.70:
+            return f"{gen(n - 1)}, {gen(n - 1)}"
+        l, r = gen(n - 1), gen(n - 1)
+        if rng.random() < 0.25:
+            l = f"({l})"
+        if rng.random() < 0.25:
+            r = f"({r})"
+        return f"{l} {rng.choice(BIN + ['!=', '<=', '>', '>='])} {r}"
+    return gen(depth)
+
+
+def tp_perturb(rng, s):
+    """insert, delete or replace one token-like piece"""
+    parts = s.replace("(", " ( ").replace(")", " ) ").replace("[", " [ ").replace("]", " ] ") \
+        .replace(",", " , ").split()
+    if not parts:
+        return rng.choice(TP_NOISE)
+    k = rng.randrange(3)
+    i = rng.randrange(len(parts) + (1 if k == 0 else 0))
+    if k == 0:
+        parts.insert(i, rng.choice(TP_NOISE))
+    elif k == 1:
+        del parts[i]
+    else:
+        parts[i] = rng.choice(TP_NOISE)
+    return " ".join(parts)
+
+
+TP_OPERAND_KW = {"and", "or", "not", "if", "else"}
+
+
+def consumption_problem(s):
+    """why NO parser of an expression syntax with brackets can have read the whole of `s`: the
+    brackets do not match, or two operands stand next to each other.  Judged on Python's own token
+    split (None = Python's tokenizer rejects the string: no claim)."""
+    ts = python_tokens(s)
+    if ts is None:
+        return None
+    stack = []
+    for t in ts:
+        if t in "([":
+            stack.append(t)
+        elif t in ")]":
+            if not stack or stack.pop() != {")": "(", "]": "["}[t]:
+                return "unbalanced"
+    if stack:
+        return "unbalanced"
+
+    def operand(t):
+        return t not in SHARED_OPS and t not in TP_OPERAND_KW and t != "~"
+    for x, y in zip(ts, ts[1:]):
+        if operand(x) and operand(y):
+            return "adjacent-operands"
+    return None
+
+
+class TableParse(Stream):
+    """the interpreter of the parser table REGENERATED from the source of pymbolic/parser.py
+    (`c07TopT Generated.c07ParserTable`) AND the hand-written model (`parseTop`; the two are proved
+    equal by `PV.C07.parse_top_eq_table_current` as long as the regenerated table is the model's)
+    against `Parser.__call__` on the real lexer's tokens, over
+    the whole syntax (keyword arguments, slices, tuples, lists, look-ups, wildcards), several
+    `min_precedence` values, and strings damaged by one inserted / deleted / replaced token.
+    Oracle (independent of the parser): a string whose brackets do not match, or in which two
+    operands are adjacent, must be refused — the parser consumes the whole input or raises."""
+    name = "table-parse"
+
+    def cases(self, rng, tier):
+        for s, k in skeletons2():
+            yield {"text": s, "minprec": 0, "kind": "skeleton"}
+        n = 2500 if tier == "quick" else 40000
+        levels = [0, 0, 0, 0, 5, 6, 10, 11, 75, 76, 100, 205, 215, 231, 250]
+        for i in range(n):
+            s = tp_string(rng, rng.randint(0, 3))
+            kind = "whole-syntax"
+            if i % 3 == 2:
+                s = tp_perturb(rng, s)
+                kind = "damaged"
+            yield {"text": s, "minprec": rng.choice(levels), "kind": kind}
+        for s in ["a b", "a)", "a ) b", "(a", "a]", "f(a", "f(a))", "a, )", "a,", "a, b,", "(a,),", "[a],",
+                  "(a, b), c", "+(a, b), c", "+[a], b", "[a, b], c", "a if b", "a if b else", "a if b else c d",
+                  "f(k=1, 2)", "f(k=1, k=2)", "f(, a)", "f(a b)", "f(a,, b)", "f(a=)", "a[", "a[]", "a[b",
+                  "a.", "a.1", "a.b.c", ":", "::", "a:", ":a", "a:b:c", "a[b:c, d]", "a:b, c", "*", "* + a",
+                  "a *", "not", "- -a", "~~a", "if", "if + 1", "a if if else b", "1 if 2 else 3 if 4 else 5",
+                  "a = b", "f(a)(b)[c].d", "a ** b ** c", "-a ** b", "a < b < c", "", "(", ")", "()", "[]",
+                  "(())", "a, (b, c)", "(a, b) + c", "x if (a, b) else c", "a if b else c, d"]:
+            for mp in (0, 5, 11):
+                yield {"text": s, "minprec": mp, "kind": "edge"}
+
+    def request(self, pl):
+        toks = lex_tokens(pl["text"])
+        if toks is None:
+            return "(tparse-both 0 ((sym \"$lexer-rejects$\")))"
+        return f"(tparse-both {pl['minprec']} ({' '.join(toks)}))"
+
+    def _parse(self, pl):
+        import warnings
+
+        from pymbolic.parser import Parser
+        with warnings.catch_warnings():
+            warnings.simplefilter("ignore")
+            return Parser()(pl["text"], pl["minprec"])
+
+    def run_impl(self, pl):
+        from pytools.lex import ParseError
+        if lex_tokens(pl["text"]) is None:
+            return "(err ParseError)"
+        try:
+            r = self._parse(pl)
+        except ParseError:
+            return "(err ParseError)"
+        except RecursionError:
+            raise
+        except Exception as ex:
+            return dumps(exc_to_sx(ex))
+        try:
+            return dumps(expr_to_sx(r))
+        except Exception as ex:
+            return f"(unencodable {type(ex).__name__})"
+
+    def agree(self, model, impl, pl):
+        # the driver answers `(both <table interpreter> <hand-written model>)`
+        if lex_tokens(pl["text"]) is None:
+            return "trivial"
+        if model == f"(both {impl} {impl})":
+            return "ok"
+        return "trivial" if "(noclaim)" in model else "diff"
+
+    def oracle(self, pl):
+        why = consumption_problem(pl["text"])
+        if why is None:
+            return None
+        try:
+            r = self._parse(pl)
+        except Exception:
+            return None
+        return Failure("accepts-" + why,
+                       f"Parser()({pl['text']!r}, {pl['minprec']}) returns {r!r} although the input "
+                       f"cannot have been read completely ({why})", pl)
+
+    def shrink(self, pl):
+        parts = pl["text"].split()
+        for i in range(len(parts)):
+            t2 = parts[:i] + parts[i + 1:]
+            if t2:
+                yield {"text": " ".join(t2), "minprec": pl["minprec"], "kind": pl["kind"]}
+        if pl["minprec"]:
+            yield {"text": pl["text"], "minprec": 0, "kind": pl["kind"]}
+
+    def nontrivial_key(self, pl, model, impl):
+        return pl["text"] + "@" + str(pl["minprec"]) if not impl.startswith("(err") else None
+
+    def stats(self, pl, mo, io, acc):
+        acc[pl["kind"]] = acc.get(pl["kind"], 0) + 1
+        k = "tree" if not io.startswith("(err") else io
+        acc.setdefault("outcomes", {})
+        acc["outcomes"][k] = acc["outcomes"].get(k, 0) + 1
+        if consumption_problem(pl["text"]) is not None:
+            acc["must-refuse"] = acc.get("must-refuse", 0) + 1
+
+# }}}
+
+
+# the parser table is part of the property: its extractor, theorems and stream (appended here, after
+# the definition of PROP, so that the block above can be merged independently of edits to PROP)
+PROP.lean_targets.append("PV.Properties.C07Table")
+PROP.extractors.append(extract_parser_table)
+PROP.streams.append(TableParse())
+PROP.trusted_base.append(
+    "extract/parser.py (the reader of pymbolic/parser.py) and the meaning given to the LexIterator "
+    "primitives / node constructors in PV/Model/ParserTable.lean, tied by the table-parse stream")
